@@ -6,7 +6,7 @@ ASSUMPTIONS = ["asyncio-visible interleavings only; real thread pre-emption is n
 
 
 def run(tier, seed):
-    return [relay.suite_exhaustive(tier, seed, "sql", pid="C05"), relay.suite_live(tier, seed, pid="C05"), relay.suite_relay(tier, seed, "sql", label="live", pid="C05"),
+    return [relay.suite_concurrent_dup(tier, seed, ("sql",)), relay.suite_exhaustive(tier, seed, "sql", pid="C05"), relay.suite_live(tier, seed, pid="C05"), relay.suite_relay(tier, seed, "sql", label="live", pid="C05"),
             relay.suite_relay(tier, seed, "kv", label="live", pid="C05")]
 
 
